@@ -90,3 +90,26 @@ func VerifEncodings() []string {
 	}
 	return out
 }
+
+// VerifTouchRunes reads every element of a slice the library handed to the
+// application (for example the combining runes returned by GetContent).  It
+// is compiled with the library, so that in a -race build the read is visible
+// to the detector like any application code's would be.
+//
+//go:noinline
+func VerifTouchRunes(r []rune) (n int) {
+	for _, x := range r {
+		n += int(x)
+	}
+	return n
+}
+
+// VerifTouchBytes is VerifTouchRunes for byte slices.
+//
+//go:noinline
+func VerifTouchBytes(b []byte) (n int) {
+	for _, x := range b {
+		n += int(x)
+	}
+	return n
+}
